@@ -37,7 +37,9 @@ LoadTask(pid, r, x, old, isNew) ==
       trm == Count(r.gens, LAMBDA g : g.what = "message" /\ g.pid = pid /\ g.t = k /\ IsDone(g.state))
       okact == r.a = "Act" /\ r.res = "ok" /\ r.pid = pid /\ r.t = k /\ r.kind \in TerminalKinds
       errw == SelectSeq(r.ws, LAMBDA w : w.kind # "proc" /\ w.pid = pid /\ w.t = k /\ w.new = "error")
-      revived == x.catchDone /\ (isNew \/ ~old.catchDone)
+      revs == Count(r.ws, LAMBDA w : w.kind # "proc" /\ w.pid = pid /\ w.t = k
+                                      /\ w.old = "error" /\ w.new = "running")
+      revived == revs > 0
       code == IF errw # <<>> THEN errw[Len(errw)].err ELSE IF isNew THEN NIL ELSE old.err
       cs == Trees[sc].n[k[1]].catches
       first == { i \in DOMAIN cs : (cs[i] = NIL \/ cs[i] = code)
@@ -50,20 +52,21 @@ LoadTask(pid, r, x, old, isNew) ==
       caught |-> IF revived THEN code ELSE IF isNew THEN NIL ELSE old.caught,
       caughtBy |-> IF revived THEN (IF first = {} THEN 0 ELSE CHOOSE i \in first : TRUE)
                    ELSE IF isNew THEN 0 ELSE old.caughtBy,
+      revivals |-> SatAdd(IF isNew THEN 0 ELSE old.revivals, revs),
       redo |-> IF isNew THEN (r.a = "Act" /\ r.kind \in {"back", "cancel"}) ELSE old.redo]
 
-(* writes of this step that the lifecycle forbids; error -> running is the    *)
-(* catch revival when the task's catch flag turns on in this very step        *)
+(* writes of this step that the lifecycle forbids; error -> running is legal  *)
+(* once per task (the catch revival; that a catch matched is C06's business)  *)
 BadWrites(pid, r, oldp) ==
   LET ws == SelectSeq(r.ws, LAMBDA w : w.kind # "proc" /\ w.pid = pid)
-      lp == r.post.procs[pid]
-      flag(k) == \E i \in DOMAIN lp.tasks : lp.tasks[i].k = k /\ lp.tasks[i].catchDone
-      was(k) == oldp.ts # <<>> /\ k \in DOMAIN oldp.ts /\ oldp.ts[k].catchDone
+      before(k) == IF oldp.ts # <<>> /\ k \in DOMAIN oldp.ts THEN oldp.ts[k].revivals ELSE 0
+      earlier(j) == Cardinality({ i \in 1..(j - 1) : ws[i].t = ws[j].t /\ ws[i].old = "error"
+                                                     /\ ws[i].new = "running" })
   IN { [t |-> ws[i].t, old |-> ws[i].old, new |-> ws[i].new, via |-> ws[i].via] :
          i \in { j \in DOMAIN ws :
                   /\ ~LegalWrite(ws[j].old, ws[j].new)
                   /\ ~(ws[j].old = "error" /\ ws[j].new = "running"
-                       /\ flag(ws[j].t) /\ ~was(ws[j].t)) } }
+                       /\ before(ws[j].t) + earlier(j) = 0) } }
 
 LoadProc(pid, r, oldp) ==
   LET lp == r.post.procs[pid] IN
@@ -82,13 +85,16 @@ LoadProc(pid, r, oldp) ==
              !.nseq = Len(lp.tasks) + 1,
              !.ev = [start |-> SatAdd(@.start, starts), term |-> SatAdd(@.term, comps + errs),
                      kinds |-> @.kinds \cup (IF comps > 0 THEN {"complete"} ELSE {})
-                                       \cup (IF errs > 0 THEN {"error"} ELSE {})],
+                                       \cup (IF errs > 0 THEN {"error"} ELSE {}),
+                     first |-> IF @.first # NIL THEN @.first
+                               ELSE LET te == SelectSeq(r.gens, LAMBDA g : g.pid = pid /\ g.what \in {"complete", "error"})
+                                    IN IF te = <<>> THEN NIL ELSE te[1].what],
              !.viol = @ \cup BadWrites(pid, r, oldp),
              !.pure = @ /\ ~(r.a = "Act" /\ r.pid = pid /\ r.res = "ok" /\ r.kind # "complete")]
 
 FreshProc(mi, inp) ==
   [st |-> "started", mi |-> mi, inp |-> inp, ts |-> <<>>, ps |-> "none", perr |-> NIL,
-   nseq |-> 1, ev |-> [start |-> 0, term |-> 0, kinds |-> {}], viol |-> {}, pure |-> TRUE]
+   nseq |-> 1, ev |-> [start |-> 0, term |-> 0, kinds |-> {}, first |-> NIL], viol |-> {}, pure |-> TRUE]
 
 KeyOrNo(r) == IF "t" \in DOMAIN r THEN r.t ELSE NoKey
 
